@@ -10,7 +10,7 @@ from .real import schema, try_compile
 
 
 # the input shapes compile_routine accepts; every stream cycles through them
-INPUT_FORMS = ("schema", "program", "dict", "routine", "routine-twice")
+INPUT_FORMS = ("schema", "program", "dict", "routine", "routine-twice", "rawdict", "rawprogram")
 
 
 class Case:
